@@ -326,5 +326,107 @@ class ToStandard(Stream):
                 yield dict(case, chord=dict(c, **{key: val}))
 
 
+class ToScaleNote(ToStandard):
+    """Note.to_scale_note(chord) - the note-level form behind Melody.to_scale_notes(chord) and Chord.to_scale_notes() - on non-relative
+    notes of every system, with per-note modes and accidentals, against Renote.to_scale_note (= Import.parse of Pitch.to_pitch_abs)"""
+    name = "to_scale_note"
+    checker = "check_to_scale_note"
+    pair = "Note.to_scale_note (Chord.to_pitch, Chord.parse) <-> Renote.to_scale_note"
+    quick, thorough = 1500, 25000
+
+    def gen(self, rng, n):
+        from harness.props.C01 import rand_chord, rand_note
+        for i in range(n):
+            c = rand_chord(rng, modifiers=0.2)
+            c.pop("ton_none", None)
+            yield {"chord": c, "note": rand_note(rng)}
+
+    def impl(self, case):
+        def f():
+            ch = mlang.mk_chord(case["chord"])
+            n = mlang.mk_note(case["note"])
+            r = n.to_scale_note(ch)
+            return {"note": sg.read_note(r), "pitch": [int(ch.to_pitch(n)), int(ch.to_pitch(r))], "dur_amp": [F(r.duration) == F(n.duration), r.amp == n.amp]}
+        return mlang.guarded(f)
+
+    def spec(self, case, r):
+        if mlang.is_exc(r):
+            try:
+                ch = mlang.mk_chord(case["chord"])
+                ch.chord_extension_pitches
+                ch.to_pitch(mlang.mk_note(case["note"]))
+            except Exception:
+                return None                        # the chord is invalid for its modifier set, or the note has no pitch on it (C01 / C02 decide those)
+            return {"sig": "to-scale-note-raises", "msg": str(r)}
+        if r["pitch"][0] != r["pitch"][1]:
+            return {"sig": "to-scale-note-changes-pitch:" + case["note"]["kind"], "msg": f"{case['note']} in {case['chord']}: pitch {r['pitch'][0]} -> {r['note']} pitch {r['pitch'][1]}"}
+        if not all(r["dur_amp"]):
+            return {"sig": "to-scale-note-changes-duration-or-dynamics", "msg": str(r)}
+        return None
+
+    def nontrivial(self, case, r):
+        return bool(case["note"].get("mode") or case["note"].get("acc")) or case["note"]["kind"] != "s"
+
+
+class ToChordNote(ToScaleNote):
+    """Note.to_chord_note(chord) against Renote.note_to_chord_note: notes of every system, half of them drawn from the chord's own tones
+    (moved by octaves) so that the rewriting branch is taken"""
+    name = "to_chord_note"
+    checker = "check_to_chord_note"
+    method = "to_chord_note"
+    pair = "Note.to_chord_note (chord.chord_notes, list.index with Note.__eq__) <-> Renote.note_to_chord_note"
+    quick, thorough = 1200, 20000
+
+    def gen(self, rng, n):
+        from harness.props.C01 import rand_chord, rand_note
+        for i in range(n):
+            c = rand_chord(rng, modifiers=0.3)
+            c.pop("ton_none", None)
+            nt = rand_note(rng)
+            if i % 2 == 0:
+                try:
+                    ch = mlang.mk_chord(c)
+                    tones = ch.chord_notes if self.method == "to_chord_note" else ch.extension_notes
+                    t = rng.choice(list(tones))
+                    nt = {"kind": t.type, "val": int(t.val), "oct": int(t.octave) + rng.choice([0, 0, 1, -1, 2])}
+                    if rng.random() < 0.15: nt["mode"] = rng.choice(mlang.MODES)
+                    if rng.random() < 0.15 and nt["kind"] == "s": nt["acc"] = rng.choice(mlang.ACCS)
+                except Exception:
+                    pass
+            yield {"chord": c, "note": nt}
+
+    def impl(self, case):
+        def f():
+            ch = mlang.mk_chord(case["chord"])
+            n = mlang.mk_note(case["note"])
+            r = getattr(n, self.method)(ch)
+            try:
+                before = int(ch.to_pitch(n))
+            except Exception:
+                before = None                      # a note without a pitch on this chord (an accidental the table lacks): it is copied
+            return {"note": sg.read_note(r), "pitch": [before, int(ch.to_pitch(r)) if before is not None else None],
+                    "dur_amp": [F(r.duration) == F(n.duration), r.amp == n.amp]}
+        return mlang.guarded(f)
+
+    def spec(self, case, r):
+        out = ToScaleNote.spec(self, case, r)
+        if out:
+            out["sig"] = out["sig"].replace("to-scale-note", self.method.replace("_", "-"))
+        return out
+
+    def nontrivial(self, case, r):
+        return not mlang.is_exc(r) and r["note"]["kind"] in "cb" and case["note"]["kind"] not in "cb"
+
+    def hist_keys(self, case, r):
+        return ToScaleNote.hist_keys(self, case, r) + (["rewritten" if self.nontrivial(case, r) else "kept"])
+
+
+class ToExtensionNote(ToChordNote):
+    name = "to_extension_note"
+    checker = "check_to_extension_note"
+    method = "to_extension_note"
+    pair = "Note.to_extension_note (chord.extension_notes, list.index with Note.__eq__) <-> Renote.note_to_extension_note"
+
+
 def streams():
-    return [Renotate(), RenotateLevels(), ToAbsolute(), CorrectOctave(), ToStandard()]
+    return [Renotate(), RenotateLevels(), ToAbsolute(), CorrectOctave(), ToStandard(), ToScaleNote(), ToChordNote(), ToExtensionNote()]
